@@ -334,6 +334,9 @@ func (m *Manager) AddValidatedV2Blocks(blocks []types.Block, states []consensus.
 	for i := range blocks {
 		if blocks[i].V2 == nil {
 			return errors.New("only v2 blocks can be pre-validated")
+		} else if blocks[i].Timestamp.After(states[i].MaxFutureTimestamp(time.Now())) {
+			// not a consensus rule, so pre-validation does not cover it
+			return ErrFutureBlock
 		}
 		m.store.AddBlock(blocks[i], &consensus.V1BlockSupplement{})
 		m.store.AddState(states[i])
